@@ -37,6 +37,8 @@ def spec_for(prop, tier, seed, i):
     pr = PROFILES[prop]
     rs = sub(seed, prop, tier, i)
     r = random.Random(rs)
+    if pr.gen is not None:
+        return rs, pr.gen(r, tier)
     P = pr.pick(r, tier)
     S = gen_spec(r, P)
     if not P.get("allow_known") and not os.environ.get("VERIF_NO_SANITIZE"):
@@ -234,13 +236,13 @@ def explore(prop, tier, seed, workers=None, out=print):
         if len(reported) >= 8:
             break
         v = vs[0]
-        feats0 = sorted(features(v["spec"]))
+        feats0 = sorted(pr.features(v["spec"]))
         pre = [e for e in findings.get("open", []) if match_finding(e, prop, clause, [feats0])]
-        if pre and all(any(match_finding(e, prop, clause, [sorted(features(x["spec"]))]) for e in pre) for x in vs[:10]):
+        if pre and all(any(match_finding(e, prop, clause, [sorted(pr.features(x["spec"]))]) for e in pre) for x in vs[:10]):
             known_hits[pre[0]["id"]] += len(vs)
             continue
-        ms, mres, nr = minimise(v["spec"], pr.oracles, prop, clause, budget_s=mbudget, runner=pr.run)
-        featsm = sorted(features(ms))
+        ms, mres, nr = pr.minimise(v["spec"], clause, mbudget)
+        featsm = sorted(pr.features(ms))
         hit = [e for e in findings.get("open", []) if match_finding(e, prop, clause, [feats0, featsm])]
         if hit:
             known_hits[hit[0]["id"]] += len(vs)
